@@ -278,6 +278,50 @@ pub fn check_list(c: &ListCase) -> CaseResult {
                 return Err((format!("op=into_pair-walk shape={}", shape), format!("walking with into_pair gives {} elements and tail {}", seen.len(), short(&cur))));
             }
         }
+        // ---- the adaptors of std's Iterator trait agree with stepping through
+        // next() (an overridden last / nth / count has to give what the
+        // default one gives), on all three iterators
+        if n > 0 && n <= 2000 {
+            let at = c.idx.first().map_or(0, |i| (*i as usize) % n);
+            if let Value::Cons(cell) = &l {
+                let show = |x: &(Value, Option<Value>)| (MV::from_value(&x.0), x.1.as_ref().map(MV::from_value));
+                let stepped: Vec<(MV, Option<MV>)> = {
+                    let mut it = cell.clone().into_iter();
+                    let mut out = Vec::new();
+                    while let Some(x) = it.next() {
+                        out.push(show(&x));
+                    }
+                    out
+                };
+                let last = cell.clone().into_iter().last().map(|x| show(&x));
+                let nth = cell.clone().into_iter().nth(at).map(|x| show(&x));
+                let count = cell.clone().into_iter().count();
+                let skipped_last = cell.clone().into_iter().skip(at).last().map(|x| show(&x));
+                if last != stepped.last().cloned() || nth != stepped.get(at).cloned() || count != stepped.len() || skipped_last != stepped.last().cloned() {
+                    return Err((
+                        format!("op=into_iter-adaptor shape={}", shape),
+                        format!("into_iter(): last {:?} / nth({}) {:?} / count {} disagree with stepping through next() ({} items, last {:?})", last, at, nth, count, stepped.len(), stepped.last()),
+                    ));
+                }
+                let cells: Vec<MV> = cell.iter().map(|c| MV::from_value(c.car())).collect();
+                if cell.iter().last().map(|c| MV::from_value(c.car())) != cells.last().cloned()
+                    || cell.iter().nth(at).map(|c| MV::from_value(c.car())) != cells.get(at).cloned()
+                    || cell.iter().count() != cells.len()
+                    || cells != ys
+                {
+                    return Err((format!("op=iter-adaptor shape={}", shape), "iter(): last / nth / count disagree with stepping through next()".into()));
+                }
+                // (the element iterator is not fused: the adaptors stop at its first None, after xs)
+                let li: Vec<MV> = cell.list_iter().map(MV::from_value).collect();
+                if cell.list_iter().last().map(MV::from_value) != li.last().cloned()
+                    || cell.list_iter().nth(at).map(MV::from_value) != li.get(at).cloned()
+                    || cell.list_iter().count() != li.len()
+                    || li != ys
+                {
+                    return Err((format!("op=list_iter-adaptor shape={}", shape), "list_iter(): last / nth / count disagree with stepping through next()".into()));
+                }
+            }
+        }
         // ---- the mutable accessors change exactly the cell they are applied to
         if n > 0 && n <= 2000 {
             let at = c.idx.first().map_or(0, |i| (*i as usize) % n);
